@@ -4,7 +4,13 @@
 stdin  {"cases": [{"id", "rect": [tmin, tmax, wmin, wmax] (hex floats; s, s, angstrom, angstrom),
                    "program": [{"op": "chop", "choppers": [{"d": hex, "windows": [[E, E], ...]}]}
                                | {"op": "prop", "d": hex}],
-                   "items": [hex distances for __getitem__]}]}
+                   "items": [hex distances for __getitem__],
+                   "multi": [{"entry": "frame" | "seq" | "item", "base_frac": f | "base": k, "item": hex,
+                              "dims": [names], "shape": [sizes], "dists": [hex, row-major], "dtype": ...}],
+                   "single": bool}]}
+       multi: after the program, a frame is propagated to an ARRAY of distances in ONE call
+       (Frame.propagate_to on frames[k] / on seq[item], or FrameSequence.propagate_to) and vertices,
+       is_regular, bounds(), subbounds() are read off per distance (indexing by dimension NAME).
        E (a window end) is {"v": hex} (a literal), {"frac": f} (lo + f*(hi-lo) of the time range of the
        frame the chopper meets, computed here in binary64) or {"vertex": k, "ulps": n} (the time of the
        k-th vertex (mod number of vertices) of that frame, moved by n ulps) — the last two are resolved
@@ -13,7 +19,8 @@ stdout RESULT {"cases": [{"id", "program": resolved program (all literals), "err
                           "frames": [{"d": hex, "subframes": [[[t, w], ...]], "regular": [bool],
                                       "bounds": [t0, t1, w0, w1] | {"error": cls},
                                       "subbounds": [[t0, t1, w0, w1], ...] | {"error": cls}}],
-                          "items": [{"d": hex, "subframes": [...] } | {"d": hex, "error": cls}]}],
+                          "items": [{"d": hex, "subframes": [...] } | {"d": hex, "error": cls}],
+                          "multi": [see run_multi]}],
                "constants": {"m_n": hex, "h": hex}}
 All numbers are binary64 written with float.hex() (exact)."""
 import json
@@ -114,6 +121,92 @@ def describe_frame(frame):
     return r
 
 
+def at(var, idx):
+    """slice away the distance dims that `var` has (by name)"""
+    for dim, i in idx:
+        if dim in var.dims:
+            var = var[dim, i]
+    return var
+
+
+def has_dims(var, dims, shape):
+    return all(d in var.dims and var.sizes[d] == n for d, n in zip(dims, shape))
+
+
+def f4_at(t, w, idx):
+    t, w = at(t, idx), at(w, idx)
+    if t.dims != ('bound',) or w.dims != ('bound',):
+        raise RuntimeError(f'Layout{t.dims}{w.dims}')
+    return [fx(t.values[0]), fx(t.values[1]), fx(w.values[0]), fx(w.values[1])]
+
+
+def sub_at(t, w, idx):
+    t, w = at(t, idx), at(w, idx)
+    if set(t.dims) != {'subframe', 'bound'} or set(w.dims) != {'subframe', 'bound'}:
+        raise RuntimeError(f'Layout{t.dims}{w.dims}')
+    return [[fx(t['subframe', i]['bound', 0].value), fx(t['subframe', i]['bound', 1].value),
+             fx(w['subframe', i]['bound', 0].value), fx(w['subframe', i]['bound', 1].value)]
+            for i in range(t.sizes['subframe'])]
+
+
+def run_multi(seq, m, single):
+    """propagate to an array of distances in one call; everything is reported per distance (row-major)"""
+    dims, shape = list(m['dims']), [int(n) for n in m['shape']]
+    vals = np.array([float.fromhex(h) for h in m['dists']], dtype='float64').reshape(shape)
+    dist = sc.array(dims=dims, values=vals.astype(m.get('dtype', 'float64')), unit='m')
+    r = {'entry': m['entry'], 'dims': dims, 'shape': shape, 'dtype': m.get('dtype', 'float64'),
+         'dists': [fx(v) for v in dist.values.astype('float64').ravel()], 'error': None}
+    base = None
+    try:
+        if m['entry'] == 'seq':
+            r['base'] = len(seq.frames) - 1
+            base = seq.frames[-1]
+            frame = seq.propagate_to(dist).frames[-1]
+        elif m['entry'] == 'item':
+            r['item'] = m['item']
+            base = seq[sv(m['item'], 'm')]
+            frame = base.propagate_to(dist)
+        else:
+            k = m['base'] if 'base' in m else min(int(m['base_frac'] * len(seq.frames)), len(seq.frames) - 1)
+            r['base'] = k
+            base = seq.frames[k]
+            frame = base.propagate_to(dist)
+    except Exception as ex:
+        r['error'] = type(ex).__name__
+        return r
+    idxs = [list(zip(dims, ix)) for ix in np.ndindex(*shape)]
+    r['dist_kept'] = bool(sc.identical(frame.distance, dist))
+    try:
+        r['polys'] = [[[[fx(t), fx(w)] for t, w in zip(at(sf.time, ix).values, at(sf.wavelength, ix).values)]
+                       for sf in frame.subframes] for ix in idxs]
+        r['time_dims_ok'] = all(has_dims(sf.time, dims, shape) and sf.time.ndim == len(dims) + 1
+                                and sf.wavelength.ndim == 1 for sf in frame.subframes)
+    except Exception as ex:
+        r['error'] = 'vertices:' + type(ex).__name__
+        return r
+    try:
+        r['regular'] = [bool(sf.is_regular()) for sf in frame.subframes]
+    except Exception as ex:
+        r['regular'] = {'error': type(ex).__name__}
+    try:
+        b = frame.bounds()
+        r['bounds'] = {'dist_dims': has_dims(b['time'], dims, shape),
+                       'values': [f4_at(b['time'], b['wavelength'], ix) for ix in idxs]}
+    except Exception as ex:
+        r['bounds'] = {'error': type(ex).__name__, 'text': str(ex)[:120]}
+    try:
+        b = frame.subbounds()
+        r['subbounds'] = {'dist_dims': has_dims(b['time'], dims, shape),
+                          'values': [sub_at(b['time'], b['wavelength'], ix) for ix in idxs]}
+    except Exception as ex:
+        r['subbounds'] = {'error': type(ex).__name__, 'text': str(ex)[:120]}
+    if single:
+        # the same frame propagated to each distance alone (scalar distance): what the property is stated about
+        r['single'] = [describe_frame(base.propagate_to(sc.scalar(float(v), unit='m')))
+                       for v in dist.values.astype('float64').ravel()]
+    return r
+
+
 def run_case(case):
     res = {'id': case['id'], 'error': None}
     tmin, tmax, wmin, wmax = case['rect']
@@ -146,6 +239,13 @@ def run_case(case):
         except Exception as ex:
             items.append({'d': dh, 'error': type(ex).__name__})
     res['items'] = items
+    res['multi'] = []
+    if res['error'] is None:
+        for m in case.get('multi', []):
+            try:
+                res['multi'].append(run_multi(seq, m, case.get('single', False)))
+            except Exception as ex:
+                res['multi'].append({'entry': m.get('entry'), 'harness_error': f'{type(ex).__name__}: {ex}'[:300]})
     return res
 
 
